@@ -167,12 +167,28 @@ impl PathParser {
         }
 
         match self.command.expect("Command should be already set") {
-            'M' | 'L' | 'T' => {
+            'M' => {
+                // "(x y)+"; a moveto starts a new subpath (which any closepath
+                // returns to), and further pairs are implicit lineto commands
+                let xy = self.tokens.read_coord()?;
+                self.update_position(xy);
+                self.start_pos = Some(xy);
+                self.command = Some('L');
+            }
+            'm' => {
+                let (dx, dy) = self.tokens.read_coord()?;
+                let (cpx, cpy) = self.position.unwrap_or((0., 0.));
+                let xy = (cpx + dx, cpy + dy);
+                self.update_position(xy);
+                self.start_pos = Some(xy);
+                self.command = Some('l');
+            }
+            'L' | 'T' => {
                 // "(x y)+"
                 let xy = self.tokens.read_coord()?;
                 self.update_position(xy);
             }
-            'm' | 'l' | 't' => {
+            'l' | 't' => {
                 let (dx, dy) = self.tokens.read_coord()?;
                 let (cpx, cpy) = self.position.unwrap_or((0., 0.));
                 self.update_position((cpx + dx, cpy + dy));
